@@ -56,3 +56,13 @@ def bits_controls(ctx):
         v = Bits(fx, {param("i"): sym_bits('i', 32, 8)}, e.phi_ops).ev(r.ret)
         res[fn] = v == spread_bits(sym_bits('i', 32, 8), 64, 0)
     ctx.control("bit-vector-rule-on-fixtures", res == {"zoc::spread_good": True, "zoc::spread_bad": False}, "got %s" % res)
+    # bounded unrolling: a loop with a concrete trip count gives the term of its written-out twin
+    res = {}
+    for fn in ("zoc::lut_unrolled", "zoc::lut_loop", "zoc::lut_loop_bad"):
+        e = Engine(fx, unroll=64); r = e.run(fn)
+        v = Bits(fx, {param("i"): sym_bits('i', 32, 8)}, e.phi_ops).ev(r.ret)
+        res[fn] = v == spread_bits(sym_bits('i', 32, 8), 64, 0)
+    e = Engine(fx); r = e.run("zoc::lut_loop")           # without unrolling the loop is a merge: not decided, never "equal"
+    v = Bits(fx, {param("i"): sym_bits('i', 32, 8)}, e.phi_ops).ev(r.ret)
+    res["lut_loop(no unroll)"] = v == spread_bits(sym_bits('i', 32, 8), 64, 0)
+    ctx.control("bounded-unrolling-on-fixtures", res == {"zoc::lut_unrolled": True, "zoc::lut_loop": True, "zoc::lut_loop_bad": False, "lut_loop(no unroll)": False}, "got %s" % res)
